@@ -20,11 +20,77 @@ func init() {
 }
 
 func xtimeWorld(r *R) {
+	if r.Choose(24, "huge-ticker") == 23 {
+		tickerHugeScenario(r)
+		return
+	}
 	if r.Choose(2, "scenario") == 0 {
 		sleepScenario(r)
 	} else {
 		tickerScenario(r)
 	}
+}
+
+// tickerHugeScenario: d and jitter near the top of the Duration range ("any d > 0 and any jitter with
+// 0 <= jitter < d"). Such a ticker must be constructible and resettable without a panic and, its
+// period being centuries, must stay silent while we watch.
+func tickerHugeScenario(r *R) {
+	r.Probe("ticker-huge-parameters")
+	const maxD = time.Duration(1<<63 - 1)
+	pick := func() (time.Duration, time.Duration) {
+		d := []time.Duration{maxD, maxD, maxD - 1, 1 << 62}[r.Choose(4, "huge-d")]
+		j := []time.Duration{1 << 62, 1 << 61, d - 1, 1<<62 + 12345}[r.Choose(4, "huge-j")]
+		if j >= d {
+			j = d - 1
+		}
+		return d, j
+	}
+	var tk *xtime.JitterTicker
+	try := func(what string, d, j time.Duration, f func()) bool {
+		ok := true
+		func() {
+			defer func() {
+				if p := recover(); p != nil {
+					if p == sim.Killed {
+						panic(p)
+					}
+					ok = false
+					r.Violate("C20", "ticker/panic/"+what+"/huge-parameters", "%s(d=%v, jitter=%v) panicked although d > 0 and 0 <= jitter < d: %v", what, d, j, p)
+				}
+			}()
+			f()
+		}()
+		return ok
+	}
+	silent := func(after string, d, j time.Duration) bool {
+		since := stdtime.Now() // New/Reset has just returned
+		sim.Sleep(time.Duration(1+r.Choose(5, "watch"))*time.Second, "huge-watch")
+		if d-j < time.Minute {
+			return true // (jitter almost as large as d: an early tick is in order)
+		}
+		select {
+		case ts := <-tk.C:
+			if !ts.After(since) {
+				return true // sent under the parameters in force before this New/Reset returned
+			}
+			r.Violate("C20", "ticker/ticks-too-close/huge-interval", "a ticker with d=%v jitter=%v (after %s) ticked within seconds; consecutive ticks must be at least d-jitter = %v apart", d, j, after, d-j)
+			return false
+		default:
+			return true
+		}
+	}
+	d, j := pick()
+	if !try("NewJitterTicker", d, j, func() { tk = xtime.NewJitterTicker(d, j) }) || !silent("NewJitterTicker", d, j) {
+		return
+	}
+	for i, n := 0, r.Choose(3, "huge-resets"); i < n; i++ {
+		d, j = pick()
+		if !try("Reset", d, j, func() { tk.Reset(d, j) }) || !silent("Reset", d, j) {
+			return
+		}
+	}
+	tk.Stop()
+	r.Hist("huge-ticker-done")
 }
 
 // sleepScenario makes one to three SleepContext calls one after the other in the same run (state
@@ -36,10 +102,16 @@ func sleepScenario(r *R) {
 	}
 }
 
+// hiddenDeadline is a context whose Deadline method reports none although it ends by deadline - what
+// a context merged from several parents, or a wrapper with a Deadline of its own, looks like.
+type hiddenDeadline struct{ context.Context }
+
+func (hiddenDeadline) Deadline() (time.Time, bool) { return time.Time{}, false }
+
 func oneSleep(r *R) {
 	strict := r.Cfg.StallPer1k == 0 && r.Cfg.LatePer1k == 0
 	d := []time.Duration{50 * time.Millisecond, -time.Second, 0, time.Millisecond, 3 * time.Second, time.Hour}[r.Choose(6, "d")]
-	kind := r.Choose(11, "ctx") // 9: cancelled mid-sleep with a cause of its own, 10: already cancelled with a cause; 0 background, 1 deadline far, 2 deadline inside d, 3 deadline just inside, 4 deadline just beyond, 5 pre-cancelled, 6 cancelled mid-sleep, 7 deadline far AND cancelled mid-sleep, 8 deadline far AND already cancelled
+	kind := r.Choose(12, "ctx") // 11: ends inside d with DeadlineExceeded, but its Deadline() reports none (a merged / wrapping context); 9: cancelled mid-sleep with a cause of its own, 10: already cancelled with a cause; 0 background, 1 deadline far, 2 deadline inside d, 3 deadline just inside, 4 deadline just beyond, 5 pre-cancelled, 6 cancelled mid-sleep, 7 deadline far AND cancelled mid-sleep, 8 deadline far AND already cancelled
 	root := NewCtx(nil, "root")
 	var ctx *Ctx
 	var remaining time.Duration
@@ -67,6 +139,11 @@ func oneSleep(r *R) {
 		remaining = pos + time.Nanosecond
 		ctx = NewDeadlineCtx(root, "just-beyond", remaining)
 		hasDeadline = true
+	case 11:
+		remaining = pos / time.Duration(2+r.Choose(3, "frac"))
+		ctx = NewDeadlineCtx(root, "hidden-deadline", remaining)
+		ctx.C = hiddenDeadline{ctx.C}
+		r.Probe("sleep-context-hides-its-deadline")
 	case 5:
 		ctx = PreCancelled(root, "pre")
 		r.Fault("ctx_precancelled")
@@ -107,6 +184,7 @@ func oneSleep(r *R) {
 		if hasDeadline {
 			rem = time.Duration(ctx.DeadlineAt - c.InvAt)
 		}
+		deadBefore := ctx.C.Err() != nil // the context had ended before the call was made
 		err := xtime.SleepContext(ctx.C, d)
 		cs.End(c, 0, err == nil, err)
 		elapsed := time.Duration(c.RetAt - c.InvAt)
@@ -127,6 +205,10 @@ func oneSleep(r *R) {
 			}
 		case tooSoon:
 			r.Violate("C20", "sleep/deadline-too-soon-spurious", "SleepContext returned DeadlineTooSoonError although the deadline is %v away (hasDeadline=%v) and d is only %v", rem, hasDeadline, d)
+		case err == nil && deadBefore:
+			// whatever the timing: a context that had already ended when the call was made ended
+			// before d elapsed
+			r.Violate("C20", "sleep/nil-although-context-ended-before-the-call", "SleepContext(d=%v) returned nil after %v although its context had already ended (%v) when the call was made", d, elapsed, ctx.C.Err())
 		case err == nil:
 			r.Probe("sleep-full")
 			if hasDeadline {
@@ -290,6 +372,32 @@ func tickerScenario(r *R) {
 		for i := 0; i < nresets; i++ {
 			sim.Sleep(time.Duration(1+r.Choose(15, "reset-at"))*11*time.Millisecond, "controller-sleep")
 			Spin(r.Choose(4, "reset-spin"), "controller-pace")
+			if r.Choose(4, "rejected-reset") == 3 {
+				// a Reset with arguments the documentation rejects: it panics and changes nothing
+				bd, bj := time.Millisecond, d+j+time.Duration(r.Choose(3, "bad-j"))*time.Millisecond
+				if r.Choose(3, "bad-kind") == 2 {
+					bd, bj = -time.Millisecond, 0
+				}
+				r.Probe("ticker-rejected-reset")
+				panicked := false
+				func() {
+					defer func() {
+						if p := recover(); p != nil {
+							if p == sim.Killed {
+								panic(p)
+							}
+							panicked = true
+						}
+					}()
+					tk.Reset(bd, bj)
+				}()
+				r.Hist("rejected-reset", panicked)
+				if !panicked {
+					r.Violate("C20", "ticker/invalid-reset-accepted", "Reset(d=%v, jitter=%v) returned normally; the documentation says it panics", bd, bj)
+					return
+				}
+				continue // the ticker goes on under the parameters it had
+			}
 			d, j = pick()
 			r.Probe("ticker-reset")
 			r.Logf("Reset(d=%v, jitter=%v)", d, j)
